@@ -33,15 +33,9 @@ def collapse (s : Str) : Str := collapseAux s false
 
 /-! ## `str.lower` -/
 
-/-- the run `(lo, hi, step, t)` containing `c`, if any → the lower-cased code point -/
-def findRun : List (Nat × Nat × Nat × Nat) → Nat → Option Nat
-  | [], _ => none
-  | (lo, hi, step, t) :: rest, c =>
-    if lo ≤ c && c ≤ hi && (c - lo) % step == 0 then some (t + (c - lo)) else findRun rest c
-
 /-- `chr(c).lower()` for `c ≥ 128` -/
 def lowerNA (c : Nat) : Str :=
-  match findRun Gen.NameTables.lowerRuns c with
+  match Gen.NameTables.lowerTree.find c with
   | some t => [t]
   | none => (Gen.NameTables.lowerSpecial.lookup c).getD [c]
 
